@@ -43,6 +43,12 @@ void newline_min_after(Chunk *ref, size_t count, E_PcfFlag flag)
       return;
    }
 
+   if (pc->GetPrev()->Is(CT_IGNORED))
+   {
+      // the line break behind a line of a disabled region
+      return;
+   }
+
    if (  next->IsComment()
       && next->GetNlCount() == 1
       && pc->GetPrev()->IsComment())
